@@ -304,13 +304,20 @@ fn iface_pieces(a: &Iface) -> Vec<Piece> {
 }
 
 /// Layout styles: 0 = as tight as the grammar allows, 1 = conventional, 2 = random generous
-/// whitespace (spaces, tabs, LF), 3 = like 2 with CR LF line ends.
+/// whitespace (spaces, tabs, LF), 3 = like 2 with CR LF line ends, 4 = like 2 with lone CR line ends
+/// (the grammar's end of line is LF, CR LF or CR).
 pub fn render(a: &Iface, style: u32, r: &mut Rng) -> String {
     render_pieces(&iface_pieces(a), style, r)
 }
 
 fn render_pieces(ps: &[Piece], style: u32, r: &mut Rng) -> String {
-    let nl = if style == 3 { "\r\n" } else { "\n" };
+    let nl = if style == 3 {
+        "\r\n"
+    } else if style == 4 {
+        "\r"
+    } else {
+        "\n"
+    };
     let mut s = String::new();
     let mut at_line_start = true; // nothing but whitespace on the current line so far
     let mut prev_word = false;
@@ -1269,7 +1276,7 @@ pub fn soup_case(r: &mut Rng, id: &str, stats: &mut Stats) {
 pub fn run_parse(r: &mut Rng, asts: &[Iface], n: u64, trunc_all: u64, soup: u64, exhaustive_every: u64, stats: &mut Stats) {
     // descriptions enumerated by TLC: every layout style
     for (i, a) in asts.iter().enumerate() {
-        for style in 0..4 {
+        for style in 0..5 {
             let text = render(a, style, r);
             parse_case("gen", &format!("m{i}-s{style}"), &text, Some(a), stats);
         }
@@ -1299,7 +1306,7 @@ pub fn run_parse(r: &mut Rng, asts: &[Iface], n: u64, trunc_all: u64, soup: u64,
     // grammar-driven random descriptions with random layout
     for i in 0..n {
         let a = gen_iface(r);
-        let style = 1 + r.below(3) as u32;
+        let style = 1 + r.below(4) as u32;
         let text = render(&a, style, r);
         parse_case("gen", &format!("g{i}-s{style}"), &text, Some(&a), stats);
         if i % 4 == 0 {
